@@ -106,6 +106,8 @@ def run(loader, R, tier):
     R.rule("R18.1", "every member read while parsing is reset by parse() "
                     "first, is constructor-only configuration, or is scratch "
                     "of the generated code")
+    R.rule("R18.2", "expressions built from the input are cast to a narrower "
+                    "class only under a dominating dynamic type test")
     nmem = 0
     for pcls, tcls, gen in PARSERS:
         for c in (pcls, tcls):
@@ -218,6 +220,13 @@ def run(loader, R, tier):
         bad, inspected = RS.check(f["u"], exempt=exempt)
         R.info.setdefault("reader_calls", {})[short(pcls)] = [
             "%s:%s reads %d members" % x for x in inspected]
+        for line, m in RS.direct_stale_reads:
+            R.violation(
+                "R18.1", "%s:%s" % (short(pcls), m[1]), prog.loc(f, line),
+                "%s::parse reads member %s::%s (line %s) before anything in "
+                "this call has (re)initialised it: the result depends on "
+                "what a previous call — possibly a failed one — left there"
+                % (short(pcls), short(m[0]), m[1], line))
         seenm = set()
         for line, text, m, gs in bad:
             if m in seenm:
@@ -231,6 +240,76 @@ def run(loader, R, tier):
                 "previous input" % (short(pcls), text, line, short(m[0]),
                                     m[1]))
     R.floor("members read while parsing", nmem, 8)
+
+    # ---------------------------------------------------------------- R18.2
+    # type confusion on arbitrary input: in the parser sources (grammar
+    # actions of the generated parsers, parser.cpp, SBML twins) an expression
+    # built from the input is cast to a narrower class only under a
+    # dominating dynamic type test of the same expression (is_a<T>,
+    # is_a_Boolean, ...); an unchecked rcp_static_cast lets e.g. "x | y"
+    # treat a Symbol as a Boolean (undefined behaviour, crash).
+    from selib import sym as _sym
+    FAMILY = {"is_a_Boolean": "SymEngine::Boolean",
+              "is_a_Number": "SymEngine::Number",
+              "is_a_Set": "SymEngine::Set",
+              "is_a_Relational": "SymEngine::Relational"}
+    ncast = 0
+    for u, f in sorted(prog.functions.items(),
+                       key=lambda kv: kv[1]["qn"]):
+        if f.get("file", "").endswith("parser_old.cpp"):
+            continue        # legacy ExpressionParser (parse_old): not one of
+                            # the entry points the property names
+        if "/symengine/parser/" not in f.get("file", "") \
+                or f.get("dependent") or f.get("tk") == "pattern" \
+                or not f.get("body"):
+            continue
+
+        def cb2(n, guards, line, f=f):
+            nonlocal ncast
+            if not (n.get("k") == "call" and n.get("n") in (
+                    "rcp_static_cast", "down_cast") and n.get("ta")
+                    and n.get("a")):
+                return
+            T = strip_type(n["ta"][0])
+            src_t = strip_type(n["ta"][1]) if len(n["ta"]) > 1 else None
+            if not T.startswith("SymEngine::") or T == "SymEngine::Basic":
+                return
+            if src_t and (src_t == T or prog.derives(src_t, T)):
+                return                      # up-cast
+            src = show(n["a"][0])
+            ncast += 1
+            key = "%s@%s" % (short(f["qn"]), n.get("l"))
+            ok = False
+            for g in _sym.flatten_guards(guards):
+                if g[0] == "case":
+                    continue
+                c, pol = g
+                if not pol or c.get("k") != "call" or not c.get("a"):
+                    continue
+                tested = show(c["a"][0])
+                same = tested.lstrip("*") == src.lstrip("*") \
+                    or tested.strip("*()") == src.strip("*()")
+                if not same:
+                    continue
+                G = None
+                if c.get("n") == "is_a" and c.get("ta"):
+                    G = strip_type(c["ta"][0])
+                elif c.get("n") in FAMILY:
+                    G = FAMILY[c["n"]]
+                if G and (G == T or prog.derives(G, T)):
+                    ok = True
+            R.instance("R18.2", key, sample={"cast": show(n)[:70],
+                                             "guarded": ok})
+            if not ok:
+                R.violation(
+                    "R18.2", key.rsplit("@", 1)[0], prog.loc(f, n.get("l")),
+                    "%s casts `%s` (an expression built from the input) to "
+                    "%s without a dominating dynamic type test: input that "
+                    "puts another kind there is reinterpreted (undefined "
+                    "behaviour, crash)" % (short(f["qn"]), src[:50],
+                                           short(T)))
+        _sym.visit_guarded(f["body"], cb2)
+    R.floor("narrowing casts in the parser sources", ncast, 4)
 
 
 MANIFEST = dict(
